@@ -506,8 +506,8 @@ func (s *nodeQ) First() (*graph.Node, error) {
 	}
 	return ToGraphNode(rows[0]), nil
 }
-func (s *nodeQ) Limit(n int) graph.NodeQuery                      { s.limit = n; return s }
-func (s *nodeQ) Offset(n int) graph.NodeQuery                     { s.offset = n; return s }
+func (s *nodeQ) Limit(n int) graph.NodeQuery  { s.limit = n; return s }
+func (s *nodeQ) Offset(n int) graph.NodeQuery { s.offset = n; return s }
 
 func (s *nodeQ) rows() []*Node {
 	var out []*Node
